@@ -4114,6 +4114,24 @@ int EGLPNUM_TYPENAME_ILLlib_readbasis (
 		}
 	}
 
+	/* a basis has exactly one basic variable per row; a file that names a row or
+	 * a column twice, or pairs them wrongly, does not describe one */
+	{
+		int nbasic = 0;
+		for (j = 0; j < nstruct; j++)
+			if (B->cstat[j] == QS_COL_BSTAT_BASIC)
+				nbasic++;
+		for (j = 0; j < qslp->nrows; j++)
+			if (B->rstat[j] == QS_ROW_BSTAT_BASIC)
+				nbasic++;
+		if (nbasic != qslp->nrows)
+		{
+			rval = EGLPNUM_TYPENAME_ILLmps_error (&state,
+									"BASIS file does not define one basic variable per row\n");
+			ILL_CLEANUP;
+		}
+	}
+
 CLEANUP:
 
 	if (file_in)
